@@ -66,7 +66,9 @@ def obs_subject(case):
 
 STAGES = {"arrangements": (obs_subject, "SubjectTrace")}
 EXPRS = ["tomorrow 8pm", "friday 8pm-9pm", "5.3.2021", "monday 9:00 - 10:30", "next friday at noon", "31.12. 23:59", "today",
-         "10-12-2021", "in 3 days"[3:], "tomorrow morning", "8:30", "monday", "5 march 2021 17:00", "heute 15 uhr", "12.5."]
+         "10-12-2021", "in 3 days"[3:], "tomorrow morning", "8:30", "monday", "5 march 2021 17:00", "heute 15 uhr", "12.5.",
+         # dash-separated dates inside longer expressions (their pieces are words of the text for the subject filter)
+         "2-3-2021 from 10 to 11", "05-12-2020", "06-06-2020 - 5-3-2021", "am 17-08-2020 9-5"]
 # ordinary words incl. words that contain a '#' without being a hashtag (C#, F#, a lone #): they are words of the subject, and no
 # label may be made out of the blank and the word that follow them
 ORD = ["the", "and", "mom", "meeting", "dinner", "team", "report", "with", "about", "C#", "F#", "#", "#?", "#!"]
